@@ -204,7 +204,15 @@ def oracle(ctx, S, E):
     cases = []
 
     def do(tag, argspec, args_vs, kwargs_vs):
-        r = one_call(S, E, argspec, args_vs, kwargs_vs)
+        try:
+            r = one_call(S, E, argspec, args_vs, kwargs_vs)
+        except Exception as e:
+            import traceback
+            ctx.fail("oracle/implementation-raised", "building the schema or calling through it raised %s: %r; case %s"
+                     % (type(e).__name__, str(e)[:300], str(dict(argspec=argspec, args=args_vs, kwargs=kwargs_vs))[:600]),
+                     replay=dict(argspec=argspec, args=args_vs, kwargs=kwargs_vs, traceback=traceback.format_exc()[-1500:]))
+            cases.append(None)
+            return
         judge(ctx, S, tag, argspec, args_vs, kwargs_vs, r)
         nontriv = r["sender_ok"] and r["sent"]
         ctx.case(["c12", argspec, args_vs, kwargs_vs], nontrivial=nontriv)
@@ -215,7 +223,7 @@ def oracle(ctx, S, E):
         w = json.load(open(p))
         do("corpus:" + os.path.basename(p), [tuple(x) for x in w["argspec"]], w["args"], w["kwargs"])
         want = w.get("expect")
-        if want and cases[-1]["r"]["outcome"] != want:
+        if want and cases[-1] is not None and cases[-1]["r"]["outcome"] != want:
             ctx.fail("oracle/regression-" + os.path.basename(p)[:-5], "corpus witness %s: expected %s, got %s"
                      % (p, want, cases[-1]["r"]["outcome"]), replay=w)
     for tag, argspec, a, kw in FIXED:
@@ -250,8 +258,13 @@ def oracle(ctx, S, E):
             else:
                 kwargs_vs.append([nm, v])
         kwargs_vs.sort()
+        if str(args_vs + kwargs_vs).count("['T', []]") > 1:
+            # CPython has ONE empty tuple: its second occurrence inside a call travels as a back-reference, which the
+            # tree-valued model does not describe (and which hides D7a there); keep such inputs out of the generated family
+            ctx.hist("skipped", "shared-empty-tuple")
+            continue
         do("gen", argspec, args_vs, kwargs_vs)
-    return cases
+    return [c for c in cases if c is not None]
 
 
 # ---------------------------------------------------------------------------------------------------------------
@@ -262,12 +275,21 @@ def differential(ctx, S, E):
     obj_cases, tok_cases, int_cases = [], [], []
     for i in range(ctx.n(900, 20000)):
         cs = S.gen_cs(rng, rng.choice([0, 1, 2, 3]))
-        c = IConstraint(S.build(cs))
         src = cs if rng.random() < 0.5 else S.perturb(cs, rng)
         vs = S.gen_value(src, rng)
         vs = S.canon_vs(vs)
-        acc = S.real_accepts(c, S.to_py(vs))
-        acc_in = S.real_accepts(c, S.to_py(vs), True)
+        try:
+            c = IConstraint(S.build(cs))
+            acc = S.real_accepts(c, S.to_py(vs))
+            acc_in = S.real_accepts(c, S.to_py(vs), True)
+        except Exception as e:
+            ctx.fail("oracle/implementation-raised", "constructing %r or checking %s against it raised %s: %s"
+                     % (cs, str(vs)[:300], type(e).__name__, str(e)[:300]), replay=dict(cs=cs, vs=vs))
+            continue
+        if acc != S.py_satisfies(cs, S.to_py(vs)):
+            ctx.fail("oracle/checkObject-vs-documented-meaning", "checkObject %s a value that the documented meaning of the "
+                     "constraint %s: %r %r" % (("accepts", "excludes", cs, str(vs)[:300]) if acc else ("rejects", "includes", cs, str(vs)[:300])),
+                     replay=dict(cs=cs, vs=vs))
         if acc != acc_in:
             ctx.fail("oracle/inbound-outbound-differ", "checkObject(inbound) and (outbound) disagree on %r %r" % (cs, vs),
                      replay=dict(cs=cs, vs=vs))
@@ -278,16 +300,20 @@ def differential(ctx, S, E):
     tbs = ["INT", "NEG", "LONGINT", "LONGNEG", "FLOAT", "STRING", "VOCAB", "OPEN"]
     for i in range(ctx.n(260, 3000)):
         cs = S.gen_cs(rng, rng.choice([0, 0, 1, 2]))
-        c = IConstraint(S.build(cs))
         tb = rng.choice(tbs)
         size = rng.choice(sizes)
         try:
+            c = IConstraint(S.build(cs))
             c.checkToken(S.TB[tb], size)
             v = 0
         except S.Violation:
             v = 1
         except S.BananaError:
             v = 2
+        except Exception as e:
+            ctx.fail("oracle/implementation-raised", "checkToken(%s, %d) of %r raised %s: %s" % (tb, size, cs, type(e).__name__, e),
+                     replay=dict(cs=cs, tb=tb, size=size))
+            continue
         tok_cases.append((S.to_ctr(c), S.TB[tb][0], size, v))
         ctx.case(["tok", cs, tb, size], nontrivial=True)
     tb_, cb_ = E.broker_pair()
